@@ -5,7 +5,7 @@ SPEC = dict(
     proof_files=['Model/Curves.v', 'Proofs/CurveFloat.v', 'Proofs/CurveFn.v', 'Proofs/CurveMono.v', 'Proofs/CurveSteps.v',
                  'Proofs/CurveLin.v', 'Proofs/CurveLinMono.v',
                  'Drv/CurvesMono.v', 'Drv/CurvesCtrl.v'],
-    tie_vo=['Proofs/LeafTie.vo'],
+    tie_vo=['Proofs/LeafTie.vo', 'Proofs/ConstsTie_basic.vo', 'Proofs/ConstsTie_clamp.vo'],
     extra_driver_files=['curves'],
     drivers=[dict(name='curvesmono', drv_mod='Drv.CurvesMono', drv_file='Drv/CurvesMono.v', shard=50,
                   args={'quick': ['n=700'], 'thorough': ['n=12000']}, timeout={'quick': 600, 'thorough': 3000}),
